@@ -92,6 +92,7 @@ func NewMuxer(ctx context.Context, w io.Writer, opts ...func(*Muxer)) *Muxer {
 		pmtCC: newWrappingCounter(0b1111),
 
 		esContexts: map[uint32]*esContext{},
+		nextPID:    startPID,
 	}
 
 	m.bufWriter = astikit.NewBitsWriter(astikit.BitsWriterOptions{Writer: &m.buf})
@@ -120,8 +121,19 @@ func (m *Muxer) AddElementaryStream(es PMTElementaryStream) error {
 			}
 		}
 	} else {
-		es.ElementaryPID = m.nextPID
-		m.nextPID++
+		// pick the next PID that is neither reserved nor already in use
+		for {
+			pid := m.nextPID
+			m.nextPID++
+			if m.nextPID >= PIDNull {
+				m.nextPID = startPID
+			}
+			if _, used := m.esContexts[uint32(pid)]; used || pid == pmtStartPID {
+				continue
+			}
+			es.ElementaryPID = pid
+			break
+		}
 	}
 
 	m.pmt.ElementaryStreams = append(m.pmt.ElementaryStreams, &es)
